@@ -37,6 +37,8 @@ def post_encode(ctx, args, kwargs, result):
     x = np.asarray(args[1] if len(args) > 1 else kwargs["transmit_data"])
     y = np.asarray(result)
     name = type(self).__name__
+    if getattr(self, "_channel", None) is None:
+        return              # encode() before any channel was set (Alamouti allows it)
     Nt = self.Nt
     ok_shape = y.ndim == 2 and y.shape[0] == Nt
     ctx.ev("encode-shape", ok_shape, cls=name,
